@@ -701,14 +701,11 @@ def stepProd (st : St) (w : String) (rest : List String) (impl : Option (List St
       pEnd
       pure acc.toList) rest
     let ss := ms.zipIdx.map fun (M, idx) => (M, toStore (st.kin idx) M)
-    -- the textbook direct sum, folded from the left
-    let acc := ss.foldl (fun (a : Nat × Nat × Spec.Fn Rat × Spec.Fn AbsQ × Bool) (Mp : PM × Store Float) =>
-      let S := Mp.2; let M := Mp.1
-      (a.1 + S.nrows, a.2.1 + S.ncols, Spec.dsum a.2.2.1 M.q a.1 a.2.1 S.nrows S.ncols,
-       Spec.dsum a.2.2.2.1 M.m a.1 a.2.1 S.nrows S.ncols, a.2.2.2.2 && M.fin))
-      (0, 0, (fun _ _ => (0 : Rat)), (fun _ _ => (⟨0⟩ : AbsQ)), true)
+    -- the textbook direct sum, folded from the left (`Spec.dsumFold`)
+    let accQ := Spec.dsumFold (0, 0, fun _ _ => (0 : Rat)) (ss.map fun Mp => (Mp.2.nrows, Mp.2.ncols, Mp.1.q))
+    let accM := Spec.dsumFold (0, 0, fun _ _ => (⟨0⟩ : AbsQ)) (ss.map fun Mp => (Mp.2.nrows, Mp.2.ncols, Mp.1.m))
     pure (showRes (dsumN (ss.map (·.2)) st.O),
-      vOfImpl impl (judge ⟨"directSumN", true, [mkOut st.kO acc.1 acc.2.1 acc.2.2.1 acc.2.2.2.1], 1, acc.2.2.2.2, true, true⟩))
+      vOfImpl impl (judge ⟨"directSumN", true, [mkOut st.kO accQ.1 accQ.2.1 accQ.2.2 accM.2.2], 1, ms.all (·.fin), true, true⟩))
   | _ => none
 
 def step (st : St) (op : List String) (impl : Option (List String)) : St × String × String :=
